@@ -171,7 +171,21 @@ func checkCmd(args []string) {
 }
 
 // runUnits verifies functions in parallel and adds their obligations as items.
-func (c *Ctx) runUnits(fns []*ssa.Function, opt vc.Options, so *vc.SolveOpts, workers int) []*vc.FuncResult {
+func (c *Ctx) runUnits(fns []*ssa.Function, opt vc.Options, so0 *vc.SolveOpts, workers int) []*vc.FuncResult {
+	so1 := *so0
+	so := &so1
+	if so.ExpectFail == nil {
+		so.ExpectFail = func(name string) bool {
+			if strings.Contains(name, "@canary") {
+				return true
+			}
+			if c.Tier == "thorough" || c.WriteBase {
+				return false
+			}
+			be, ok := c.Baseline[name]
+			return ok && be.Status != "discharged"
+		}
+	}
 	results := make([]*vc.FuncResult, len(fns))
 	var wg sync.WaitGroup
 	sem := make(chan struct{}, workers)
@@ -262,7 +276,15 @@ func finish(c *Ctx, pd *propDef) int {
 	}
 	var viols []viol
 	regressed := map[string]string{}
+	canaries, canaryBroken := 0, []string{}
 	for _, it := range c.Items {
+		if strings.Contains(it.Name, "@canary") {
+			canaries++
+			if it.Status == "discharged" {
+				canaryBroken = append(canaryBroken, it.Name)
+			}
+			continue
+		}
 		if strings.HasPrefix(it.Status, "bounded") {
 			if it.Status == "bounded-ok" {
 				boundedOK = append(boundedOK, it.Name)
@@ -335,6 +357,11 @@ func finish(c *Ctx, pd *propDef) int {
 		_ = os.WriteFile(c.Propose, b, 0o644)
 		fmt.Printf("proposed %d findings out of %d undecided -> %s\n", len(props), len(und), c.Propose)
 	}
+	if len(canaryBroken) > 0 {
+		fmt.Println("ERROR: must-fail canary obligations were discharged (engine or contract corpus broken):", canaryBroken)
+		os.Exit(2)
+	}
+	c.Extra["canaries_must_fail"] = canaries
 	code := 0
 	for _, f := range c.Known {
 		if f.Status == "fixed" {
